@@ -113,7 +113,7 @@ pub fn stub_push_pdu_v2c(_s: &mut SnmpV2cClientSocket, pdu: SnmpPdu, buf: &mut B
     Ok(())
 }
 
-//@ C03,C08,C17 quick timeout=900 | v2c send_get glue (push_pdu stubbed by a marker writer): request-id == random draw & 0x7fffffff for EVERY 64-bit draw; exactly the buffer content is sent once; encoder error or refused OID text => SnmpEncodeError/exception and NOTHING sent; next pooled buffer is empty
+//@ C03,C08,C17 quick | v2c send_get glue (push_pdu stubbed by a marker writer): request-id == random draw & 0x7fffffff for EVERY 64-bit draw; exactly the buffer content is sent once; encoder error or refused OID text => SnmpEncodeError/exception and NOTHING sent; next pooled buffer is empty
 #[kani::proof]
 #[kani::unwind(6)]
 #[kani::stub(alloc::fmt::format, stub_format)]
